@@ -9,7 +9,7 @@
    implementation and by byte-exact correspondence of the session model, not by a theorem (DESIGN.md, C01). *)
 From Coq Require Import ZArith List Bool.
 From Coq Require String.
-Require Import PyLib SuiteTypes Crypto KeySchedule Packet Reassembly Decryptor TlsSession TlsRecords C01P Hs13P C01SessionP C01Session12P.
+Require Import PyLib SuiteTypes Crypto KeySchedule Packet Reassembly Decryptor TlsSession TlsRecords C01P Hs13P C01SessionP C01Session12P HelloP.
 Import ListNotations.
 Open Scope Z_scope.
 
@@ -184,3 +184,34 @@ Theorem C01_tls12_chacha_session : forall C, CryptoLaws C -> forall tbl parts ke
                            Chacha.Inv12 key_c iv_c key_s iv_s tag s' stc' sts' ccc' scc' 0.
 Proof. exact Chacha.tls12_chacha_session. Qed.
 Print Assumptions C01_tls12_chacha_session.
+
+(* ---------------- the ServerHello ---------------- *)
+(* What Session.handle_tls_server_hello reads from a ServerHello encoded per RFC 5246 7.4.1.3 / RFC 8446 4.1.3 -- any session id, with
+   or without an extensions field, any extensions, followed by ANYTHING in the same record (further handshake messages) -- is exactly
+   what was encoded: server random, cipher suite, compression method, the extension dictionary (a later duplicate replaces an earlier
+   entry), and the version selected by record version, handshake version and the supported_versions extension; with these the keys
+   are generated (generate_keys; C15). *)
+Theorem C01_server_hello_parsed : forall C tbl parts keylog s r hv random sid suite comp es more,
+  ts_client_hello_seen s = true ->
+  r_body r = sh_message hv random sid suite comp es ++ more ->
+  len hv = 2 -> len random = 32 -> len sid < 256 -> len suite = 2 -> 0 <= comp < 256 ->
+  match es with None => True | Some l => Forall ext_ok l /\ len (enc_exts l) < 65536 end ->
+  handle_tls_server_hello C tbl parts keylog s r =
+    let exts := exts_dict es in
+    let is13 := match ext_get [0; 43] exts with Some v => bytes_eqb v [3; 4] | None => false end in
+    let s1 := upd s true true (ts_server_cc s) (ts_client_cc s) (ts_client_random s) (ts_version s) exts comp (ts_decryptor s) in
+    let rv := from_be (r_version r) in
+    let hvn := from_be hv in
+    match (if rv =? 0x0300 then Some SSL30 else if rv =? 0x0302 then Some TLS11
+           else if hvn =? 0x0301 then Some TLS10 else if hvn =? 0x0303 then Some (if is13 then TLS13 else TLS12) else None) with
+    | None => Ok (set_can s1 false)
+    | Some v => generate_keys C tbl parts keylog (upd s1 (ts_can_decrypt s1) true (ts_server_cc s1) (ts_client_cc s1) (ts_client_random s1) (VSet v) exts comp (ts_decryptor s1)) v suite random
+    end.
+Proof. exact server_hello_parsed. Qed.
+Print Assumptions C01_server_hello_parsed.
+
+(* the extension walk on its own: any encoded extension list, anywhere in a buffer *)
+Theorem C01_extension_walk : forall es, Forall ext_ok es -> forall fuel pre post acc, (length es <= fuel)%nat ->
+  ext_walk fuel (pre ++ enc_exts es ++ post) (len pre) (len pre + len (enc_exts es)) acc = fold_left dict_add es acc.
+Proof. exact ext_walk_spec. Qed.
+Print Assumptions C01_extension_walk.
